@@ -49,13 +49,40 @@ fn vx_extend_hash_len(v: &mut Vec<(MerkleHash, usize)>, chunks: &[Chunk])
 // ---- file record types, the aggregator model (shared with U-AGG / U-SESSCUT) and the callees of finalize ------------------------------
 //@ include prelude/agg_lemmas.rs
 //@ include prelude/agg_model.rs
+//@ extract mdb_shard/src/file_structs.rs const MDB_FILE_FLAG_WITH_VERIFICATION
+//@ end
+//@ extract mdb_shard/src/file_structs.rs const MDB_FILE_FLAG_VERIFICATION_MASK
+//@ end
+//@ extract mdb_shard/src/file_structs.rs const MDB_FILE_FLAG_WITH_METADATA_EXT
+//@ end
+//@ extract mdb_shard/src/file_structs.rs const MDB_FILE_FLAG_METADATA_EXT_MASK
+//@ end
+// what a reader of the record takes from the header (the bodies of `contains_verification` / `contains_metadata_ext`, verified against
+// exactly these expressions in U-SETOPS): whether per-segment verification entries / a metadata extension follow the segments
+spec fn hdr_says_verification(h: FileDataSequenceHeader) -> bool { h.file_flags & MDB_FILE_FLAG_VERIFICATION_MASK != 0 }
+spec fn hdr_says_metadata_ext(h: FileDataSequenceHeader) -> bool { h.file_flags & MDB_FILE_FLAG_METADATA_EXT_MASK != 0 }
+// the flag word FileDataSequenceHeader::new computes (the formula U-SETOPS proves for the extracted generic body)
+spec fn new_flags(v: bool, m: bool) -> u32 {
+    (MDB_DEFAULT_FILE_FLAG | (if v { MDB_FILE_FLAG_WITH_VERIFICATION } else { 0u32 })) | (if m { MDB_FILE_FLAG_WITH_METADATA_EXT } else { 0u32 })
+}
+proof fn lemma_new_flags(v: bool, m: bool)
+    ensures (new_flags(v, m) & MDB_FILE_FLAG_VERIFICATION_MASK != 0) == v, (new_flags(v, m) & MDB_FILE_FLAG_METADATA_EXT_MASK != 0) == m,
+{
+    assert(1u32 << 31 == 0x8000_0000u32) by (bit_vector);
+    assert(1u32 << 30 == 0x4000_0000u32) by (bit_vector);
+    let a = if v { 0x8000_0000u32 } else { 0u32 };
+    let b = if m { 0x4000_0000u32 } else { 0u32 };
+    assert(((0u32 | a) | b) & 0x8000_0000u32 != 0 <==> a == 0x8000_0000u32) by (bit_vector) requires a == 0x8000_0000u32 || a == 0u32, b == 0x4000_0000u32 || b == 0u32;
+    assert(((0u32 | a) | b) & 0x4000_0000u32 != 0 <==> b == 0x4000_0000u32) by (bit_vector) requires a == 0x8000_0000u32 || a == 0u32, b == 0x4000_0000u32 || b == 0u32;
+}
 impl FileDataSequenceHeader {
-    // R11/R12 stub of FileDataSequenceHeader::new at the usize instantiation (its flag arithmetic is verified in U-SETOPS);
-    // the `num_entries.try_into().unwrap()` panic is the precondition
+    // R11/R12 stub of FileDataSequenceHeader::new at the usize instantiation: the contract is the one U-SETOPS proves for the
+    // extracted generic body (same flag formula); the `num_entries.try_into().unwrap()` panic is the precondition
     #[verifier::external_body]
     fn new(file_hash: MerkleHash, num_entries: usize, contains_verification: bool, contains_metadata_ext: bool) -> (r: Self)
         requires num_entries <= u32::MAX
-        ensures r.file_hash == file_hash, r.num_entries == num_entries
+        ensures r.file_hash == file_hash, r.num_entries == num_entries,
+            r.file_flags == new_flags(contains_verification, contains_metadata_ext),
     { unimplemented!() }
 }
 impl FileVerificationEntry {
@@ -540,6 +567,8 @@ impl<DataInterfaceType: DeduplicationDataInterface> FileDeduper<DataInterfaceTyp
             /*@C01,C02*/ r.1.pending_file_info@[0].0.segments == self.file_info && r.1.pending_file_info@[0].1 == self.internally_referencing_entries,
             /*@C02*/ r.1.pending_file_info@[0].0.metadata.file_hash == r.0 && r.1.pending_file_info@[0].0.metadata.num_entries == self.file_info@.len(),
             /*@C02*/ r.1.pending_file_info@[0].0.metadata_ext == metadata_ext,
+            // the header announces exactly what the record carries (a reader sizes and parses the record by these two flags)
+            /*@C02*/ hdr_says_verification(r.1.pending_file_info@[0].0.metadata) && hdr_says_metadata_ext(r.1.pending_file_info@[0].0.metadata) == (metadata_ext is Some),
             /*@C02*/ r.1.pending_file_info@[0].0.verification@.len() == self.file_info@.len(),
             /*@C02*/ forall|i: int| 0 <= i < self.file_info@.len() ==> (#[trigger] r.1.pending_file_info@[0].0.verification@[i]).range_hash
                         == range_hash_spec(seg_den(self.file_info@[i], hashes(self.new_data@))),
@@ -557,6 +586,7 @@ impl<DataInterfaceType: DeduplicationDataInterface> FileDeduper<DataInterfaceTyp
         }
 //@ before `let fi = MDBFileInfo {`
         proof {
+            lemma_new_flags(true, true); lemma_new_flags(true, false); lemma_new_flags(false, true); lemma_new_flags(false, false);
             assert forall|i: int| 0 <= i < fi0.len() implies (#[trigger] verification@[i]).range_hash == range_hash_spec(seg_den(fi0[i], nd)) by {
                 lemma_flatten_segment(fi0, nd, i);
             }
